@@ -218,12 +218,13 @@ FFValid(c) ==
   /\ (c.d = 0 => c.lvl = "fn")                                               \* no function: one representative
   /\ (c.fk = "break" => c.encl \notin FFLoops \cup {"switch"})               \* there it would be legal
   /\ (c.fk = "continue" => c.encl \notin FFLoops)
-\* quick: every kind at every depth; the other two ways to make the functions and every enclosing statement for one kind of
-\* each group, two functions deep
+\* quick: every kind at every depth; the other two ways to make the functions for one kind of each group at every depth;
+\* every enclosing statement for one kind of each group two functions deep, and for two statically rejected kinds at script level
 FFQuickSel(c) ==
   \/ (c.lvl = "fn" /\ c.encl = "none")
   \/ (c.encl = "none" /\ c.d \in {1, 2, 3} /\ c.fk \in {"syn_token", "continue", "breakL", "toolarge", "throw", "timelimit"})
   \/ (c.lvl = "fn" /\ c.d = 2 /\ c.fk \in {"syn_asg", "continue", "breakL", "referr", "memlimit"})
+  \/ (c.d = 0 /\ c.fk \in {"breakL", "forinlhs"})
 FFCases == {c \in FFAll : FFValid(c) /\ (~Quick \/ FFQuickSel(c))}
 \* what the language says about the outcome ("" where the implementation is free: its own size limits)
 FFExp(c) == CASE c.fk = "none" -> "value"
@@ -336,11 +337,11 @@ InsertAt(sq, pos, x) == SubSeq(sq, 1, pos - 1) \o <<x>> \o SubSeq(sq, pos, Len(s
 Rot(sq, r) == [j \in 1..Len(sq) |-> sq[((j - 1 + r) % Len(sq)) + 1]]
 NV == Len(FVOrder)
 HFAll == [f : FFCases, pos : 1..(NV + 1), rot : 0..(NV - 1), clk : {"b2b", "gap"}]
-\* quick: the failing program first, in the middle, last; both clocks occur
+\* the failing program first, in the middle, last; quick: one clock each (both occur), thorough: both clocks each
 HFQuickSel(h) == \/ (h.pos = 1 /\ h.rot = 0 /\ h.clk = "gap")
                  \/ (h.pos = 6 /\ h.rot = 3 /\ h.clk = "b2b")
                  \/ (h.pos = NV + 1 /\ h.rot = 7 /\ h.clk = "gap")
-HFThoroughSel(h) == h.rot = (h.pos * 3) % NV
+HFThoroughSel(h) == h.pos \in {1, 6, NV + 1} /\ h.rot = (h.pos * 3) % NV
 HFCases == {h \in HFAll : IF Quick THEN HFQuickSel(h) ELSE HFThoroughSel(h)}
 HFItems(h) == InsertAt(Rot([j \in 1..NV |-> ItemId([fam |-> "FV", c |-> [kd |-> FVOrder[j]]])], h.rot), h.pos, ItemId([fam |-> "FF", c |-> h.f]))
 TXOfPat(pat) == IF pat = 0 THEN {c \in TXCases : c.k = "x"} ELSE {c \in TXCases : c.k = "rx" /\ c.pat = pat}
